@@ -148,6 +148,32 @@ func (pg *plantGen) build(d int, path pathB) (e, mirror lat.Ty, ps []planted) {
 	return
 }
 
+// wrapAliases puts up to n alias wrappers at random nodes of t.
+func wrapAliases(g *core.G, t lat.Ty, n int) lat.Ty {
+	var walk func(t lat.Ty) lat.Ty
+	walk = func(t lat.Ty) lat.Ty {
+		r := t
+		if len(t.Ts) > 0 {
+			r.Ts = make([]lat.Ty, len(t.Ts))
+			for i, k := range t.Ts {
+				r.Ts[i] = walk(k)
+			}
+		}
+		if len(t.Ms) > 0 {
+			r.Ms = make([]lat.Member, len(t.Ms))
+			for i, m := range t.Ms {
+				r.Ms[i] = lat.Member{Name: m.Name, Opt: m.Opt, T: walk(m.T)}
+			}
+		}
+		if n > 0 && g.Rng.Intn(4) == 0 {
+			n--
+			return lat.Alias(r)
+		}
+		return r
+	}
+	return walk(t)
+}
+
 func genDescs(g *core.G, lg *lat.Gen) {
 	u1, u2 := lat.Universe(1), lat.Universe(2)
 	pick := func(ts []lat.Ty) lat.Ty { return ts[g.Rng.Intn(len(ts))] }
@@ -232,6 +258,57 @@ func genDescs(g *core.G, lg *lat.Gen) {
 		}
 		g.Emit("descx " + s(lat.Tup(es)) + " " + s(lat.Tup(as)) + " tm ()")
 		g.Emit("descx " + s(lat.Struct(lat.Mem("a", false, lat.Tup(es)))) + " " + s(lat.Struct(lat.Mem("a", false, lat.Tup(as)))) + " tm ()")
+	}
+
+	// ---- (3a) user aliases (describeTypeAliasType; `original` an alias: the Variant collapse, Optional keeps the alias, no Undef
+	// member; an aliased ACTUAL type is "another kind" for every container arm): random alias wrappers in related pairs, and the
+	// planted pairs with an alias around the expected type, a part of it, the actual type or a part of it
+	wrapSome := func(t lat.Ty) lat.Ty { return wrapAliases(g, t, 3) }
+	for i := 0; i < 4000*g.Scale; i++ {
+		lg.Alias = true
+		var e lat.Ty
+		if i%2 == 0 {
+			e = emph(lg, 1+g.Rng.Intn(3))
+		} else {
+			e = lg.Ty(1 + g.Rng.Intn(3))
+		}
+		var a lat.Ty
+		switch g.Rng.Intn(4) {
+		case 0:
+			a = lg.Narrow(e)
+		case 1:
+			a = lg.Widen(e)
+		case 2:
+			a = lat.StripAlias(lg.Widen(e))
+		default:
+			a = lg.Ty(1 + g.Rng.Intn(2))
+		}
+		g.Emit("descs " + s(e) + " " + s(a))
+		lg.Alias = false
+	}
+	for i := 0; i < 2500*g.Scale; i++ {
+		e, mirror, ps := pg.build(1+g.Rng.Intn(3), nil)
+		p := ps[g.Rng.Intn(len(ps))]
+		switch g.Rng.Intn(5) {
+		case 0:
+			g.Emit("descs " + s(lat.Alias(e)) + " " + s(p.a))
+		case 1:
+			g.Emit("descs " + s(wrapSome(e)) + " " + s(p.a))
+		case 2:
+			g.Emit("descs " + s(e) + " " + s(wrapSome(p.a)))
+		case 3:
+			g.Emit("descs " + s(wrapSome(e)) + " " + s(wrapSome(p.a)))
+		default:
+			g.Emit("descs " + s(wrapSome(e)) + " " + s(wrapSome(mirror)))
+		}
+		if i%3 == 0 {
+			e1, _, p1 := pg.build(1, nil)
+			x := p1[g.Rng.Intn(len(p1))]
+			ev := []lat.Ty{lat.Alias(lat.Var(e, e1)), lat.Alias(lat.Opt(lat.Var(e, e1))), lat.Opt(lat.Alias(lat.Var(e, e1))), lat.Var(lat.Alias(e), lat.Alias(e1)),
+				lat.Var(lat.Alias(e), lat.Alias(e)), lat.Alias(lat.Alias(lat.Var(e1, lat.Atom("str")))), lat.Alias(lat.Atom("data")), lat.Arr(lat.Alias(lat.Var(e, e1)), 0, 5)}[g.Rng.Intn(8)]
+			av := []lat.Ty{p.a, x.a, lat.Alias(p.a), lat.Tup([]lat.Ty{p.a, x.a}), lat.Tup([]lat.Ty{lat.Alias(x.a)}), lat.Rx("")}[g.Rng.Intn(6)]
+			g.Emit("descs " + s(ev) + " " + s(av))
+		}
 	}
 
 	// ---- (3b) descriptions with SEVERAL mismatches: two planted mutations side by side, Variants of containers (every member
